@@ -183,11 +183,26 @@ def rule_important(run, F, cfg):
     if ok:
         b, t = cs[0]
         c = dominating_conditions(f, b)
-        ok = any(("is_important" in k or "var:important" in k or "φ{" in k) and v == 0 for k, v in c.items())
+        # the guard is exactly the value reported as BlockerResult.important, and nothing else
+        # (besides the is_supported early return and loop exits) stands between a query and the rewrite
+        e_imp = None
+        for bb, i, st in f.statements():
+            if st["k"] == "assign" and st["rv"]["k"] == "agg" and st["rv"].get("adt") == "blocker::BlockerResult":
+                for fname, op in zip(st["rv"]["fields"], st["rv"]["ops"]):
+                    if fname == "important":
+                        e_imp = f.expr_operand(op)
+        cl_imp = any(g.calls(r"::is_important$") for g in [f] + F.closures_of(f.name))
+        others = [k for k, v in c.items()
+                  if not (k == e_imp and v == 0)
+                  and not (k == "arg:request.is_supported" and v == 1)
+                  and not re.match(r"^discr\(<[^()]*Iterator>::next\(", k)]
+        ok = e_imp is not None and c.get(e_imp) == 0 and cl_imp and not others
+        detail = f"important = {str(e_imp)[:160]}; other guards: {[o[:120] for o in others]}"
         ok = ok and f.expr_operand(t["args"][0]).endswith(".removeparam")
     run.ob("C14.4.important-suppresses", "call-guarded", ok,
-           "apply_removeparam(self.removeparam, ..) is called only when `important` is false",
-           site=f.loc(cs[0][0]) if cs else "", config=cfg)
+           "apply_removeparam(self.removeparam, ..) is called exactly when the value reported as "
+           "BlockerResult.important is false (no other verdict bit suppresses the rewrite)",
+           site=f.loc(cs[0][0]) if cs else "", config=cfg, detail=detail if cs else "")
     callers = sorted(set(g.name for g, b, t in F.callers_of(r"^blocker::Blocker::apply_removeparam$")))
     run.ob("C14.4.important-suppresses", "single-caller", callers == ["blocker::Blocker::check_parameterised"],
            f"apply_removeparam has a single caller ({callers})", config=cfg)
